@@ -38,6 +38,37 @@ Wave 4, two more families (alphabets in domains/w4_c14):
   the contents and the uncertainty block), then the same file is loaded again
   by name and by explicit path; both must show exactly what the first load
   showed before it was customised.
+
+Wave 5 (alphabets in domains/w5_c14).  Every process so far imported the
+package from one place and had the override absent or present from its very
+start; and "an entry with data" was read as "an entry with a thermochemical
+property set".
+
+* Installed copies.  "By name" finds the bundled data from the location of
+  the package's own files.  The package directory is copied to
+  <tmp>/<chain>/pgradd for every chain of ancestor directory names of length
+  1 (thorough: 1 and 2) over 8 names (neutral; the package's own name; that
+  name as prefix, as suffix, with a dot, in capitals; the data directory's
+  name; the name of the sub-package holding the locating code), imported
+  from there in a fresh process without the override, and all nine libraries
+  are loaded by name.  Each must come from the data directory inside that
+  copy and show the groups / uncertainty block its files declare and the same
+  contents in every process of the shard.
+
+* Override moments.  The data directory is resolved when first needed, so a
+  program may select a relocated copy after importing the package.  3 plans
+  (override absent then set; set to tree A then set to tree B; set to tree A
+  then removed) x the moment of the change (before anything of pgradd is
+  imported; after every import; after every import and a load by explicit
+  path - thorough: also after each of four single imports), one fresh
+  process each, then all nine libraries by name and the library only the
+  selected tree has: all must come from the tree the environment names when
+  the first load by name happens.
+
+* Data slots of the uncertainty basis.  Every basis descriptor x {H_ref,
+  S_ref, Cp table}: the entry it names must hold data in at least one of the
+  three - read from the loaded object and, independently, from the records
+  of the raw files.
 """
 import json
 import math
@@ -53,6 +84,7 @@ from ..models import ringref
 from ..domains import libs
 from ..domains import w3_c14 as w3
 from ..domains import w4_c14 as w4
+from ..domains import w5_c14 as w5
 from .. import VERIF, REPO
 
 TWO_HASH_SEEDS = ('quick', 'thorough')   # tiers in which the space is walked under a second PYTHONHASHSEED
@@ -77,6 +109,20 @@ BOUND = {t: '9 libraries x 3 ways of locating them (27 fresh processes) x every 
             'processes the history load - customise (every group with data by '
             'one of 11 kinds, 8 library-level kinds) - load by name - load by '
             'explicit path x 6 content keys'
+            '; wave 5: every uncertainty-basis descriptor x 3 data slots '
+            '(H_ref, S_ref, Cp table) on the loaded object and on the raw '
+            'files; installed copies: %s of ancestor directory names over 8 '
+            'names (%d fresh processes, package imported from '
+            '<tmp>/<chain>/pgradd, no override) x 9 loads by name x (loaded, '
+            'data directory, groups and uncertainty block as in the files, 6 '
+            'content keys against the first dump of the shard); override '
+            'moments: 3 plans (absent->B, A->B, A->removed) x %d moments (%d '
+            'fresh processes) x 9 loads by name + the library only tree B '
+            'has x the same observations' % (
+                'every chain of length 1 and 2' if t == 'thorough' else
+                'every chain of length 1',
+                len(w5.install_chains(t)), len(w5.moment_indices(t)),
+                3 * len(w5.moment_indices(t)))
          for t in ('quick', 'thorough')}
 RULE = ('the space is finite and enumerated completely; a case is one (library, '
         'way, group, entry point, call shape, temperature) evaluation, one '
@@ -86,7 +132,12 @@ RULE = ('the space is finite and enumerated completely; a case is one (library, 
         'contents; in the customise-and-load-again family a case is one '
         'customisation (did it change the object it was applied to), one later '
         'load, or one content key of a later load compared with the first load '
-        'of that process; non-trivial = everything except the by-name '
+        'of that process; in the installed-copy and override-moment '
+        'families a case is one load by name, where it was read from, its '
+        'group names / uncertainty block against the files, or one content '
+        'key compared with the first dump of that library in the shard; in '
+        'the uncertainty-basis clause a case is one (descriptor, data slot); '
+        'non-trivial = everything except the by-name '
         'evaluation of a group through get_HoRT / get_SoR / get_CpoR')
 ASSUMPTIONS = ['positive semi-definite: smallest eigenvalue >= -1e-9 x largest, '
                'by a cyclic Jacobi iteration written for this check',
@@ -119,12 +170,44 @@ ASSUMPTIONS = ['positive semi-definite: smallest eigenvalue >= -1e-9 x largest, 
                'loads (single customisations in isolation are not enumerated); '
                'a customisation that leaves its object unchanged is counted as '
                'history:customisation-without-effect and noted, not judged '
-               '(none occurs on the shipped data)']
+               '(none occurs on the shipped data)',
+               'an uncertainty-basis descriptor "names an entry with data" when '
+               'its thermochemical property set holds a reference enthalpy, a '
+               'reference entropy or a non-empty heat-capacity table (loaded '
+               'object: ND_H_ref / ND_S_ref not None, ND_Cp_data non-empty; '
+               'files: key H_ref / S_ref / Cp_data or its ND_ spelling present, '
+               'not null, not empty); an entry holding some but not all three '
+               'is noted, not judged (none occurs on the shipped data)',
+               'installed copies: the copy is made with shutil.copytree from '
+               'the tree under test (same bytes), imported through sys.path; '
+               'other ways of installing (symbolic links, zip archives, a '
+               'renamed package directory) and other working directories are '
+               'not enumerated',
+               'override moments: the program changes the override through '
+               'os.environ; nothing that needs the data directory (a load or '
+               'scheme lookup by name) happens before the change - what must '
+               'happen when the override changes AFTER the first such need is '
+               'not judged (the directory is documented as remembered); trees '
+               'A and B are byte-identical copies of the bundled data plus '
+               'one extra library directory each, so only the location of '
+               'library.yaml (lib.path) and the extra library tell the trees '
+               'apart - which tree an included file came from is the business '
+               'of the differing-relocated-tree family',
+               'in both wave-5 families the nine loads of a process run in '
+               'the bundled order rotated by the program number, so every '
+               'library is the first load by name of at least one process per '
+               'family (quick installed copies: of 8 of the 9), not of every '
+               'process; "identical contents" is judged '
+               'against the first dump of the same library within the shard '
+               '(2 to 4 processes) and against the names and the uncertainty '
+               'block the files declare']
 MANIFEST = dict(
     technique='complete enumeration of the bundled configurations in fresh '
               'processes, differential across three ways of locating the data, '
-              'across relocated trees that differ from the bundled one, and '
-              'across repeated loads within one process',
+              'across relocated trees that differ from the bundled one, '
+              'across repeated loads within one process, across places the '
+              'package is installed in and across moments at which the '
+              'override is set',
     text='Each bundled library is loaded by name, by path and from a relocated '
          'copy (27 fresh processes); the complete content dumps must be '
          'identical; every group must evaluate to finite plain numbers for '
@@ -150,7 +233,18 @@ MANIFEST = dict(
          'and by path), the library is also present under three names the '
          'bundle does not have and under the name of the next bundled library; '
          'apart from the markers all contents must equal those of the bundled '
-         'file loaded by path in the same process.',
+         'file loaded by path in the same process. Wave 5: the package '
+         'directory is copied under every chain of ancestor directory names '
+         '(8 names; quick length 1, thorough length <= 2) and imported from '
+         'there without the override - all nine libraries must load by name '
+         'from the data directory inside that copy; the override is put into '
+         'the environment, replaced or removed by the program itself at '
+         'every moment before the first load by name (3 plans x 3 moments, '
+         'thorough 7) - all nine libraries and a library only the selected '
+         'tree has must come from the tree named at that first load; every '
+         'uncertainty-basis descriptor must name an entry that holds data in '
+         'at least one of its three slots, on the loaded object and in the '
+         'raw files.',
     note='The shipped data are the whole space; nothing is sampled.',
     ref='5/C14')
 
@@ -163,8 +257,23 @@ os.dup2(dn, 1); os.dup2(dn, 2)
 sys.stdout = open(os.devnull, 'w')
 warnings.simplefilter('ignore')
 import numpy as np
+import importlib
+def environ_step(v):
+    # what a program does to the override: point it at a tree / remove it
+    if v is None:
+        os.environ.pop('pgradd_DATA_DIR', None)
+    else:
+        os.environ['pgradd_DATA_DIR'] = v
+# events of the program that precede the imports every process of this check
+# makes (wave 5): ('import', module) / ('env', value or None)
+for step in %(pre)r:
+    if step[0] == 'import':
+        importlib.import_module(step[1])
+    else:
+        environ_step(step[1])
 import pgradd.ThermoChem
 from pgradd.GroupAdd.Library import GroupLibrary
+PKG = os.path.dirname(os.path.abspath(pgradd.__file__))
 name = %(name)r
 SHAPES_DEFAULT = %(shapes_default)r     # entry point -> [(label, units, how, value)]
 SHAPES_FULL = %(shapes_full)r
@@ -203,7 +312,7 @@ def dump(arg, with_evals):
     # with_evals: 0 no evaluation, 1 the three plain entry points on the
     # temperature grid, 2 in addition every other entry point on the grid in
     # its default call shape and every call shape at one temperature
-    out = dict(name=name, arg=arg)
+    out = dict(name=name, arg=arg, pkg=PKG)
     try:
         lib = GroupLibrary.Load(arg)
     except Exception as e:
@@ -282,6 +391,13 @@ def dump(arg, with_evals):
                          shape=list(m.shape), mat=[[float(x) for x in row] for row in m.tolist()] if m.ndim == 2 else None,
                          dof=uq['dof'], rmse=sorted(uq['RMSE']))
         out['uq_basis_with_data'] = [bool('thermochem' in lib[x]) for x in uq['descriptors']]
+        # wave 5: the three places a thermochemical property set keeps data in
+        def slots(x):
+            if 'thermochem' not in lib[x]:
+                return None
+            k = lib[x]['thermochem']
+            return [k.ND_H_ref is not None, k.ND_S_ref is not None, bool(k.ND_Cp_data)]
+        out['uq_basis_slots'] = [slots(x) for x in uq['descriptors']]
     return out
 def customise(index):
     # change, through every route a caller has, the library object that load
@@ -405,6 +521,9 @@ for job in %(jobs)r:
         # frozen at once: what is reported must not alias objects that a
         # later step changes
         outs.append(json.loads(json.dumps(dump(job[1], job[2]))))
+    elif job[0] == 'env':
+        environ_step(job[1])
+        outs.append(dict(env=job[1], pkg=PKG))
     else:
         try:
             outs.append(customise(job[1]))
@@ -425,10 +544,14 @@ def _child_tables():
         new_group=w4.NEW_GROUP, new_remap=w4.NEW_REMAP)
 
 
-def children(name, jobs, data_dir_override=None):
+def children(name, jobs, data_dir_override=None, pre=(), repo=None):
     # One fresh process; `jobs` = steps executed in that order, each either
     #   (argument of GroupLibrary.Load, evaluation level 0/1/2)    a load, or
-    #   ('customise', i)      change the object load number i returned.
+    #   ('customise', i)      change the object load number i returned, or
+    #   ('env', value)        os.environ[override] = value / removed when None.
+    # `pre` = steps executed BEFORE the imports every process makes:
+    #   ('import', module) / ('env', value).  `repo` = the directory put first
+    #   on sys.path (default: the tree under test).
     # Returns one dump per step.
     env = dict(os.environ)
     env.pop('pgradd_DATA_DIR', None)
@@ -438,9 +561,12 @@ def children(name, jobs, data_dir_override=None):
     for a, e in jobs:
         if a == 'customise':
             steps.append(('customise', int(e)))
+        elif a == 'env':
+            steps.append(('env', e))
         else:
             steps.append(('load', a, int(e)))
-    code = CHILD % dict(_child_tables(), repo=REPO, name=name, jobs=steps)
+    code = CHILD % dict(_child_tables(), repo=repo or REPO, name=name, jobs=steps,
+                        pre=[tuple(x) for x in pre])
     p = subprocess.run([sys.executable, '-c', code], env=env, stdout=subprocess.PIPE,
                        stderr=subprocess.PIPE, timeout=900)
     try:
@@ -488,9 +614,12 @@ def identity(name):
     return (centre, tuple(sorted(per)))
 
 
-def raw_expectation(path, seen=None):
+def raw_expectation(path, seen=None, slots=None):
     """Union of group / descriptor names, and the UQ block, declared by a
-    library file and everything it includes (PyYAML, no pgradd)."""
+    library file and everything it includes (PyYAML, no pgradd).  When a
+    dict is passed as `slots` it receives, per group identity, the list of
+    (has H_ref, has S_ref, has Cp_data) of every record written under that
+    identity (None for a record without a thermochemical property set)."""
     import yaml
     seen = seen if seen is not None else set()
     if path in seen:
@@ -500,9 +629,15 @@ def raw_expectation(path, seen=None):
     groups = set(identity(g) for g in (d.get('groups') or {}))
     groups |= set((str(g), ()) if '(' not in str(g) else identity(g)
                   for g in (d.get('other_descriptors') or {}))
+    if slots is not None:
+        for sec in ('groups', 'other_descriptors'):
+            for g, rec in (d.get(sec) or {}).items():
+                ident = (str(g), ()) if (sec == 'other_descriptors' and
+                                         '(' not in str(g)) else identity(g)
+                slots.setdefault(ident, []).append(w5.raw_slots(rec))
     uq = d.get('UQ') or None
     for inc in d.get('include') or []:
-        g2, u2 = raw_expectation(os.path.join(os.path.dirname(path), inc), seen)
+        g2, u2 = raw_expectation(os.path.join(os.path.dirname(path), inc), seen, slots)
         groups |= g2
         uq = uq or u2
     return groups, uq
@@ -639,8 +774,10 @@ def run_library(R, name):
                       uq=bool(d.get('uq'))), limit=1)
         # independent expectation from the raw files: which groups and which
         # uncertainty block the library.yaml and everything it includes declare
+        file_slots = {}
         want_groups, want_uq = raw_expectation(os.path.join(libs.data_dir(), name,
-                                                            'library.yaml'))
+                                                            'library.yaml'),
+                                               slots=file_slots)
         have = set(identity(g) for g in d['groups'])
         R.evals += len(want_groups) + 1
         R.nontrivial += len(want_groups) + 1
@@ -722,6 +859,49 @@ def run_library(R, name):
                 if not has:
                     R.violation('uq-basis-without-data', '%s: uncertainty basis '
                                 'descriptor %r has no thermochemical data' % (name, x), wit)
+            # wave 5: "names an entry WITH DATA" - a thermochemical property
+            # set that holds neither a reference enthalpy, nor a reference
+            # entropy, nor a heat-capacity table is not data.  Walked per
+            # (descriptor, slot), on the loaded object and on the files.
+            slot_names = [s_ for s_, _ in w5.DATA_SLOTS]
+            for x, sl in zip(uq['descriptors'], d['uq_basis_slots']):
+                R.evals += len(slot_names)
+                R.nontrivial += len(slot_names)
+                if sl is None:
+                    R.outcomes['uq-basis:no-property-set'] += 1     # judged above
+                    continue
+                for s_, has in zip(slot_names, sl):
+                    R.outcomes['uq-basis:%s:%s' % (s_, 'present' if has else 'absent')] += 1
+                if not any(sl):
+                    R.violation('uq-basis-without-data', '%s: uncertainty basis '
+                                'descriptor %r names an entry whose thermochemical '
+                                'property set holds no data (no H_ref, no S_ref, no '
+                                'heat-capacity table)' % (name, x), wit)
+                elif not all(sl):
+                    R.outcomes['uq-basis:partial-data'] += 1
+                    R.notes.append('%s: uncertainty basis descriptor %r has data for '
+                                   '%s only (noted, not judged)' % (
+                                       name, x, [s_ for s_, h in zip(slot_names, sl) if h]))
+            # the same walk over the raw files (PyYAML only): the union of
+            # the records written under the identity the basis name spells
+            for x in (want_uq or {}).get('InvCovMat', {}).get('groups', []):
+                R.evals += len(slot_names)
+                R.nontrivial += len(slot_names)
+                recs = file_slots.get(identity(x)) or file_slots.get((str(x), ()))
+                got = [r for r in (recs or []) if r is not None]
+                if not recs:
+                    R.outcomes['uq-basis-in-files:no-record'] += 1
+                    R.violation('uq-basis-without-data:in-files', '%s: the files '
+                                'declare the uncertainty basis descriptor %r but no '
+                                'group or descriptor record of that name' % (name, x), wit)
+                elif not any(any(r) for r in got):
+                    R.outcomes['uq-basis-in-files:no-data'] += 1
+                    R.violation('uq-basis-without-data:in-files', '%s: the record the '
+                                'files give for the uncertainty basis descriptor %r '
+                                'holds no data (H_ref, S_ref, Cp_data all absent, '
+                                'null or empty)' % (name, x), wit)
+                else:
+                    R.outcomes['uq-basis-in-files:with-data'] += 1
             if len(set(uq['descriptors'])) != n:
                 R.violation('uq-basis-duplicates', '%s: duplicate basis entries' % name, wit)
             M = uq['mat']
@@ -870,15 +1050,220 @@ def run_variants(R, name):
         shutil.rmtree(tmp, ignore_errors=True)
 
 
+# ------------------------------------------------------------------ wave 5
+# Two more things a caller controls about "by name" and "the override":
+# where the package itself lives, and when the override enters the
+# environment (alphabets in domains/w5_c14).
+
+_RAW = {}
+
+
+def bundled_expectation(name):
+    """Group identities and uncertainty block the bundled files of `name`
+    declare (PyYAML; read once per worker - the files do not change)."""
+    key = (libs.data_dir(), name)
+    if key not in _RAW:
+        _RAW[key] = raw_expectation(os.path.join(libs.data_dir(), name, 'library.yaml'))
+    return _RAW[key]
+
+
+def judge_located(R, fam, what, wit, loads, root, reference):
+    """Loads by name made by ONE process of a wave-5 family.
+    loads = [(bundled library whose contents are expected, argument, dump)],
+    root = the data directory every one of them must have been read from,
+    reference = {library: (who, dump)} the first dump of each library seen in
+    this shard (all others are compared with it)."""
+    for lib, arg, d in loads:
+        R.evals += 1
+        R.nontrivial += 1
+        if 'load_error' in d:
+            R.outcomes[fam + ':load-failed'] += 1
+            R.violation('%s:load-failed' % fam, '%s: Load(%r) failed: %s'
+                        % (what, arg, d['load_error']), wit)
+            continue
+        R.outcomes[fam + ':loaded'] += 1
+        R.evals += 1
+        R.nontrivial += 1
+        if not os.path.realpath(d['path']).startswith(os.path.realpath(root) + os.sep):
+            R.outcomes[fam + ':wrong-data-directory'] += 1
+            R.violation('%s:wrong-data-directory' % fam,
+                        '%s: Load(%r) was read from %s, not from the data '
+                        'directory %s' % (what, arg, d['path'], root), wit)
+        else:
+            R.outcomes[fam + ':right-data-directory'] += 1
+        # the files say which groups and which uncertainty block
+        want_groups, want_uq = bundled_expectation(lib)
+        have = set(identity(g) for g in d['groups'])
+        R.evals += 2
+        R.nontrivial += 2
+        if have != want_groups:
+            R.outcomes[fam + ':groups-differ-from-files'] += 1
+            R.violation('%s:groups-differ-from-files' % fam,
+                        '%s: Load(%r) lacks %s / has extra %s compared with the '
+                        'group names written in the files of %s' % (
+                            what, arg, sorted(want_groups - have)[:4],
+                            sorted(have - want_groups)[:4], lib), wit)
+        else:
+            R.outcomes[fam + ':groups-as-declared'] += 1
+        got = d.get('uq')
+        if want_uq is None:
+            bad = 'an uncertainty block that no file declares' if got else None
+        elif not got:
+            bad = 'no uncertainty block although the files declare one'
+        elif [str(x) for x in want_uq['InvCovMat']['groups']] != got['descriptors'] \
+                or got['dof'] != want_uq['DOF'] or got['mat'] is None or any(
+                    abs(float(a) - float(b)) > 1e-12 for ra, rb in
+                    zip(want_uq['InvCovMat']['mat'], got['mat']) for a, b in zip(ra, rb)):
+            bad = 'an uncertainty block that differs from the one in the files'
+        else:
+            bad = None
+        if bad:
+            R.outcomes[fam + ':uq-differs-from-files'] += 1
+            R.violation('%s:uq-differs-from-files' % fam,
+                        '%s: Load(%r) shows %s' % (what, arg, bad), wit)
+        else:
+            R.outcomes[fam + ':uq-as-declared'] += 1
+        # identical contents: against the first dump of this library that a
+        # process of this shard produced
+        if lib not in reference:
+            reference[lib] = (what, d)
+            continue
+        who, a = reference[lib]
+        for key in CONTENT_KEYS:
+            R.evals += 1
+            R.nontrivial += 1
+            if a.get(key) != d.get(key):
+                diff = ''
+                if key == 'groups':
+                    ks = sorted(set(a['groups']) ^ set(d['groups'])) or \
+                        [g for g in a['groups'] if a['groups'][g] != d['groups'].get(g)]
+                    diff = ' (first difference: %s)' % ks[:2]
+                R.outcomes[fam + ':contents-differ'] += 1
+                R.violation('%s:contents-differ:%s' % (fam, key),
+                            '%s: %s of Load(%r) differs from what [%s] showed for '
+                            'the same library%s' % (what, key, arg, who, diff), wit)
+            else:
+                R.outcomes[fam + ':contents-identical'] += 1
+
+
+def run_installed(R, programs):
+    """Installed copies: for every (chain of ancestor directory names, index)
+    the package directory is copied to <tmp>/<chain>/pgradd, a fresh process
+    without the override imports it from there and loads every library by
+    name (bundled order rotated by index).  Every load must succeed, must
+    have been read from the data directory inside THAT copy, must show the
+    groups and uncertainty block its files declare, and the same contents as
+    in the other processes of the shard."""
+    programs = [(tuple(c), int(i)) for c, i in programs]
+    wit0 = dict(kind='installed', programs=[[list(c), i] for c, i in programs])
+    tmp = tempfile.mkdtemp(prefix='pgv_c14i_')
+    try:
+        reference = {}
+        for n, (chain, idx) in enumerate(programs):
+            base = os.path.join(tmp, 'p%d' % n)
+            top = w5.install_copy(base, chain, REPO)
+            pkg = os.path.join(top, w5.PACKAGE)
+            order = w5.rotation(idx)
+            outs = children('*', [(L, 0) for L in order], None, repo=top)
+            for d in outs:
+                if 'pkg' in d and os.path.realpath(d['pkg']) != os.path.realpath(pkg):
+                    raise RuntimeError('harness: the child imported %s, not the '
+                                       'copy %s' % (d['pkg'], pkg))
+            what = 'package copied to <tmp>/%s, no override' % '/'.join(chain + (w5.PACKAGE,))
+            wit = dict(wit0, at=dict(chain=list(chain), loads=order))
+            judge_located(R, 'installed-copy', what, wit,
+                          list(zip(order, order, outs)),
+                          os.path.join(pkg, 'data'), reference)
+            R.extra['installed_copy_processes'] += 1
+            R.sample(dict(installed_copy='/'.join(chain + (w5.PACKAGE,)),
+                          loaded_by_name=order), limit=1)
+    finally:
+        shutil.rmtree(tmp, ignore_errors=True)
+
+
+def run_moments(R, programs):
+    """Override moments: for every (plan, moment, index) a fresh process of
+    the tree under test starts with the override absent / naming tree A, the
+    program lets the events of the moment happen, then points the override at
+    tree B / removes it, and only then loads every library by name (bundled
+    order rotated by index; then the library only tree B has).  Nothing
+    needed the data directory before, so every load must come from the tree
+    the environment names at the first load by name (the bundled one when
+    the override was removed)."""
+    programs = [tuple(int(x) for x in p) for p in programs]
+    wit0 = dict(kind='override-moment', programs=[list(p) for p in programs])
+    tmp = tempfile.mkdtemp(prefix='pgv_c14m_')
+    try:
+        trees = w5.build_override_trees(tmp, libs.data_dir())
+        reference = {}
+        for p, m, idx in programs:
+            plabel, initial, change = w5.OVERRIDE_PLANS[p]
+            mlabel, mods, all_imports, path_load = w5.MOMENTS[m]
+            order = w5.rotation(idx)
+            step = ('env', trees[change] if change else None)
+            loads = [(L, L) for L in order]
+            if change:
+                loads.append((w5.ONLY_SOURCE, w5.ONLY_NAMES[change]))
+            pre, jobs = [], []
+            bundled = os.path.join(libs.data_dir(), order[0], 'library.yaml')
+            if not all_imports:
+                pre = [('import', mod) for mod in mods] + [step]
+            else:
+                if path_load:
+                    jobs.append((bundled, 0))
+                jobs.append(step)
+            skip = len(jobs)
+            jobs += [(arg, 0) for _, arg in loads]
+            outs = children('*', jobs, trees[initial] if initial else None, pre=pre)
+            what = 'override %s, %s' % (plabel, mlabel)
+            history = (['start with override %s' % ('= tree ' + initial if initial else 'absent')]
+                       + ['import ' + mod for mod in mods]
+                       + (['every other import'] if all_imports else [])
+                       + (['Load(%r)' % bundled] if path_load else [])
+                       + ['override := %s' % ('tree ' + change if change else 'removed')]
+                       + ['Load(%r)' % arg for _, arg in loads])
+            wit = dict(wit0, at=dict(plan=plabel, moment=mlabel, history=history))
+            if path_load:
+                # the load by explicit path that precedes the change: must be
+                # the bundled file whatever the override says
+                d = outs[0]
+                R.evals += 1
+                R.nontrivial += 1
+                if 'load_error' in d:
+                    R.outcomes['override-moment:path-load-failed'] += 1
+                    R.violation('override-moment:load-by-path-failed',
+                                '%s: Load(%r) failed: %s' % (what, bundled, d['load_error']), wit)
+                elif os.path.realpath(d['path']) != os.path.realpath(bundled):
+                    R.violation('override-moment:load-by-path-redirected',
+                                '%s: Load(%r) was read from %s' % (what, bundled, d['path']), wit)
+                else:
+                    R.outcomes['override-moment:path-load-ok'] += 1
+                    reference.setdefault(order[0], (what + ' [the load by path]', d))
+            judge_located(R, 'override-moment', what, wit,
+                          [(lib, arg, d) for (lib, arg), d in zip(loads, outs[skip:])],
+                          trees[change] if change else libs.data_dir(), reference)
+            R.extra['override_moment_processes'] += 1
+            R.sample(dict(override_moment=history), limit=1)
+    finally:
+        shutil.rmtree(tmp, ignore_errors=True)
+
+
 def shards(tier, seed):
-    # both tiers: the shipped data are the whole space
-    return [(n,) for n in libs.LIBS] + [('variants', n) for n in libs.LIBS]
+    # both tiers: the shipped data are the whole space; wave 5: the installed
+    # copies and override moments of the tier (domains/w5_c14)
+    return ([(n,) for n in libs.LIBS] + [('variants', n) for n in libs.LIBS]
+            + [('installed', s) for s in w5.install_shards(tier)]
+            + [('moments', s) for s in w5.moment_shards(tier)])
 
 
 def run_shard(shard, tier):
     R = Result()
     if shard[0] == 'variants':
         run_variants(R, shard[1])
+    elif shard[0] == 'installed':
+        run_installed(R, shard[1])
+    elif shard[0] == 'moments':
+        run_moments(R, shard[1])
     else:
         run_library(R, shard[0])
     return R
@@ -890,6 +1275,12 @@ def replay(w):
         # one process loads all variants of a library in a fixed order; the
         # witness names the library, the whole process is re-run
         run_variants(R, w['lib'])
+    elif w.get('kind') == 'installed':
+        # the witness carries every program of its shard (the dumps of one
+        # shard are compared with each other): all are re-run
+        run_installed(R, w['programs'])
+    elif w.get('kind') == 'override-moment':
+        run_moments(R, w['programs'])
     else:
         run_library(R, w['lib'])
     return dict(violates=bool(R.violations),
